@@ -15,7 +15,7 @@ from transactron.lib import FIFO, BasicFifo, Connect, Forwarder, Pipe  # noqa: E
 from transactron.lib.simultaneous import condition  # noqa: E402
 from transactron.utils.dependencies import DependencyContext, DependencyManager  # noqa: E402
 
-from tv.designs import Design, analyze, gen_spec  # noqa: E402
+from tv.designs import gen_deep_nesting_spec, Design, analyze, gen_spec  # noqa: E402
 from tv.props._core_a import shape_labels  # noqa: E402
 
 ID = "C10"
@@ -80,6 +80,13 @@ def chain_spec(draw):
 def strategy(draw, tier="quick"):
     if draw(st.integers(0, 2)) == 0:
         return draw(chain_spec())
+    if draw(st.integers(0, 4)) == 0:
+        # three levels of nested bodies with callers on every level
+        spec = draw(gen_deep_nesting_spec())
+        spec["vals"] = []
+        spec["nvals"] = 1
+        spec["gen"] = "grammar"
+        return spec
     spec = draw(gen_spec(allow_rels=True, allow_rdep=True, rdep_bias=True, allow_nm=True, sched="eager", max_space=1, nvals=1, min_trans=2, max_trans=5))
     spec["vals"] = []
     spec["gen"] = "grammar"
